@@ -163,6 +163,16 @@ class _TypeDomain(Domain):
                         d = self.digits  # negative ints render with '-'
                     return [("ok", Const(d), state)]
                 return [("exc", Exc(ORD, "AttributeError", node.lineno), state)]
+        # an extracted conversion / validation step: interpreted in line
+        target = None
+        if name.startswith("self._") and name.count(".") == 1:
+            target = self.prog.cls("Client").methods.get(name[5:])
+        elif isinstance(node.func, ast.Name) and self.fn is not None:
+            target = self.fn.module.functions.get(node.func.id)
+        if target is not None:
+            res = self.inline(node, target, args, kwargs, state)
+            if res is not None:
+                return res
         return [("ok", TOP, state)]
 
     def ret_value(self, st, v, s):
